@@ -257,6 +257,13 @@ def civilFromDays (z : Int) : YMD :=
   let m := if mp < 10 then mp + 3 else mp - 9
   ⟨if m ≤ 2 then Y + 1 else Y, m, d0 + 1⟩
 
+/-- Gregorian leap-year rule and month lengths (used only in theorem statements) -/
+abbrev isLeap (y : Int) : Prop := y % 4 = 0 ∧ (y % 100 ≠ 0 ∨ y % 400 = 0)
+
+def daysInMonth (y m : Int) : Int :=
+  if m = 2 then (if isLeap y then 29 else 28)
+  else if m = 4 ∨ m = 6 ∨ m = 9 ∨ m = 11 then 30 else 31
+
 /-- `time.Date(y, m, d, …)` month normalisation (`norm(year, month-1, 12)`), day assumed in range -/
 def normMonth (y m : Int) : Int × Int := (y + (m - 1) / 12, (m - 1) % 12 + 1)
 
@@ -272,6 +279,18 @@ deriving DecidableEq, Repr
 /-- `currentDay < MidMonth || (currentDay == MidMonth && blockTime.Hour() < PaymentHour)` -/
 def isEarly (day hour : Int) : Bool :=
   decide (day < MidMonth) || (decide (day = MidMonth) && decide (hour < PaymentHour))
+
+/-- the pay day of the month chosen for block time `now` -/
+def payDayOf (now : Int) : Int :=
+  if isEarly (civilFromDays (now / 86400)).d (now % 86400 / 3600) then MidMonth else BeginningOfMonth
+
+/-- the extra month when this month's mid-month pay date has passed -/
+def payOffOf (now : Int) : Int :=
+  if isEarly (civilFromDays (now / 86400)).d (now % 86400 / 3600) then 0 else 1
+
+/-- civil (year, month) `months + offset` months after the block time's month -/
+def payMonthOf (now months : Int) : Int × Int :=
+  normMonth (civilFromDays (now / 86400)).y ((civilFromDays (now / 86400)).m + (months + payOffOf now))
 
 /-- Unix time of the pay date chosen by `GetPeriodLength(blockTime, months)`, `months > 0`:
     `time.Date(year, month, payDay, PaymentHour, 0,0,0, UTC).AddDate(0, months+offset, 0).Unix()` -/
